@@ -40,8 +40,19 @@ def term_eq(ex, st, pc, a, b):
     za, zb_ = zi(a), zi(b)
     if za.eq(zb_):
         return True
-    v, _ = check(ex.base + ex.axioms + list(pc) + [za != zb_], st, timeout_s=60, xcheck=False)
-    return v == "unsat"
+    # in-process solver with a short limit: equalities of hash terms are decided by congruence; a timeout counts as `differs`
+    s = z3.Solver()
+    s.set("timeout", 15000)
+    for x in ex.base + ex.axioms + list(pc):
+        s.add(x)
+    s.add(za != zb_)
+    t0 = time.time()
+    r = s.check()
+    st.queries += 1
+    st.seconds += time.time() - t0
+    if r == z3.unknown:
+        st.notes.append("equality query undecided within 15 s (counted as different)")
+    return r == z3.unsat
 
 
 # =============================================================================================== C01S
@@ -435,6 +446,8 @@ def ob_commit_order(layout, geo):
         for what, a, b in exp:
             if not term_eq(ex, st, o.pc, a, b):
                 wrong.append(what)
+                if len(wrong) >= 3:
+                    break
         if not wrong:
             return finish(ob, "holds", st, detail="%d transcript-derived values equal the oracle's (%d absorbs / squeezes: %s)" % (
                 len(exp), len(orc.ops), ", ".join("%s %s" % op for op in orc.ops)))
